@@ -40,7 +40,19 @@ func init() {
 			mu.Unlock()
 		}})
 		cl := girc.New(girc.Config{Server: "irc.example.org", Port: 6667, Nick: "bot", User: "bot", Name: "bot", AllowFlood: true})
-		cl.Handlers.AddHandler(girc.PRIVMSG, ch)
+		if in["tmpfirst"] == "1" {
+			// another part of the application waited for a PRIVMSG with a temporary handler that was registered BEFORE the command
+			// handler and has run out since: the command handler is still there
+			_, tdone := cl.Handlers.AddTmp(girc.PRIVMSG, 20*time.Millisecond, func(_ *girc.Client, _ girc.Event) bool { return false })
+			cl.Handlers.AddHandler(girc.PRIVMSG, ch)
+			select {
+			case <-tdone:
+			case <-time.After(2 * time.Second):
+			}
+			time.Sleep(10 * time.Millisecond)
+		} else {
+			cl.Handlers.AddHandler(girc.PRIVMSG, ch)
+		}
 		cli, srv := net.Pipe()
 		ret := make(chan error, 1)
 		go func() { ret <- cl.MockConnect(cli) }()
@@ -115,7 +127,7 @@ func init() {
 		if fmt.Sprint(got) != fmt.Sprint(want) {
 			c.R.Violation("cmd.wire", hin, fmt.Sprint(got), fmt.Sprint(want), "the command functions did not run exactly once each with the arguments (split on single spaces) and raw remainder of their own message")
 		}
-		c.R.Count("cmdwire/"+in["texts"]+in["hold"], true, "cmd-wire")
+		c.R.Count("cmdwire/"+in["texts"]+in["hold"]+in["tmpfirst"]+in["renamed"], true, "cmd-wire")
 	}
 }
 
@@ -123,5 +135,6 @@ func runC18Conn(c *Ctx) {
 	c.run("cmdwire", map[string]string{"texts": strings.Join([]string{"!echo a ", "!echo", "!echo  x", "!pair x ", "!pair x", "!echo a b  ", "hello", "!nosuch a"}, "\x00")})
 	c.run("cmdwire", map[string]string{"hold": "1", "texts": strings.Join([]string{"!echo one two", "!echo three", "!echo four five six", "!echo"}, "\x00")})
 	c.run("cmdwire", map[string]string{"renamed": "1", "texts": strings.Join([]string{"!echo a  b", "!pair x y", "!echo"}, "\x00")})
-	c.R.Traces += 3
+	c.run("cmdwire", map[string]string{"tmpfirst": "1", "texts": strings.Join([]string{"!echo a b", "!pair x y", "!echo"}, "\x00")})
+	c.R.Traces += 4
 }
